@@ -4,9 +4,9 @@ import EventppVerif.Generated.RemoverFrag
   Models of the `CounterRemover` / `ConditionalRemover` wrappers (utilities/counterremover.h,
   conditionalremover.h) as *behaviour transformers* on the callback-list machines: the wrapper is
   a callback whose program is "test; remove my own handle when due; then run the wrapped
-  listener's program".  The test (`--triggerCount <= 0`, pre- or post-decrement, comparison and
-  threshold) is regenerated from the source (Generated/RemoverFrag.lean); the trigger count is a
-  32-bit `int`, so the decrement wraps at `INT_MIN` (the real code has undefined behaviour there).
+  listener's program".  What one call of the wrapper does to the stored trigger count and whether it
+  finds the removal due is regenerated from the source (`Gen.Remover.call`, Generated/RemoverFrag.lean);
+  the trigger count is a 32-bit `int` (`dec32`).
 -/
 namespace Evp.Wrap
 open Evp Evp.Gen.Remover
@@ -14,16 +14,13 @@ open Evp Evp.Gen.Remover
 def intMin : Int := -2147483648
 def intMax : Int := 2147483647
 
-/-- `--x` on a 32-bit int -/
-def dec32 (x : Int) : Int := if x = intMin then intMax else x - 1
+/-- the stored trigger count after `k` calls of the wrapper (`Gen.Remover.call` is one call) -/
+def countAfter : Nat → Int → Int
+  | 0, c => c
+  | k + 1, c => countAfter k (call c).2
 
-def decN : Nat → Int → Int
-  | 0, x => x
-  | k + 1, x => decN k (dec32 x)
-
-/-- is the wrapper's `k`-th call (0-based) the one that finds the test true? -/
-def counterDue (n : Int) (k : Nat) : Bool :=
-  if testsAfterDecrement then due (decN (k + 1) n) else due (decN k n)
+/-- is the wrapper's `k`-th call (0-based) one that finds the removal due? -/
+def counterDue (n : Int) (k : Nat) : Bool := (call (countAfter k n)).1
 
 /-- the wrapper around callback id `w` with trigger count `n`; `inner` is what the wrapped
     listener (and every other callback) does.  Applies to invocations, not to `forEach`
